@@ -1,6 +1,8 @@
 mod backtrack;
 pub mod codegen;
 pub mod simplify;
+#[cfg(lexgen_verif)]
+pub mod verif_view;
 
 #[cfg(test)]
 pub mod simulate;
